@@ -31,10 +31,26 @@ def balance2(K, n=3):
             'cons': [{'name': 'c0', 'sources': [('p', None, 0)]}, {'name': 'c1', 'sources': [('p.1', None, 0)]}]}
 
 
+def rejoin(K, n=3, skip=(1,), name=None):
+    """Tee-rejoin with two real MQ relays: src -> b1 (returns None for ids in `skip`) -> c (all topics);  src -> b2 -> c (main>other)."""
+
+    return {'name': name or f'rejoin{"-skip" if skip else ""}-K{K}', 'K': K,
+            'pubs': [{'name': 'src', 'ids': list(range(n))}],
+            'relays': [{'name': 'b1', 'sources': [('src', None, 0)], 'skip': list(skip)}, {'name': 'b2', 'sources': [('src', None, 0)]}],
+            'cons': [{'name': 'c', 'sources': [('b1', None, 0), ('b2', [['main', 'other']], 0)]}]}
+
+
+def chain(K, n=3, skip=(), name=None):
+    return {'name': name or f'chain{"-skip" if skip else ""}-K{K}', 'K': K, 'pubs': [{'name': 'src', 'ids': list(range(n))}],
+            'relays': [{'name': 'mid', 'sources': [('src', None, 0)], 'skip': list(skip)}],
+            'cons': [{'name': 'c', 'sources': [('mid', None, 0)]}]}
+
+
 def quick_set(prop):
     s = {
-        'C01': [one(3), one(2, topics=('main', 'aux'), spec=[['main', 'main'], ['aux', 'x']], name='1p1c-2topics-K2'), join2(2, skip=True), join2(2, skip=False)],
-        'C02': [one(3), join2(2, skip=True), tee(2)],
+        'C01': [one(3), one(2, topics=('main', 'aux'), spec=[['main', 'main'], ['aux', 'x']], name='1p1c-2topics-K2'), join2(2, skip=True), join2(2, skip=False),
+                chain(2, skip=(1,))],
+        'C02': [one(3), join2(2, skip=True), tee(2), chain(2)],
         'C04': [one(3), tee(2), join2(2, skip=False)],
         'C05': [with_listener(2, 1), with_listener(2, 2)],
         'C07': [balance2(2)],
@@ -45,7 +61,7 @@ def quick_set(prop):
 
 def thorough_set(prop):
     s = {
-        'C01': [one(4), join2(3, skip=True), join2(3, skip=False), join2(2, skip=True, n=4, name='join2-skip-n4-K2')],
+        'C01': [one(4), join2(3, skip=True), join2(3, skip=False), join2(2, skip=True, n=4, name='join2-skip-n4-K2'), rejoin(2, n=3, skip=(1,))],
         'C02': [one(4), join2(3, skip=True), tee(3)],
         'C04': [one(4), tee(3), join2(3, skip=False)],
         'C05': [with_listener(3, 1), with_listener(3, 2)],
